@@ -365,6 +365,16 @@ fn dev_path_for_sysfs_name(sysfs_name: &String) -> io::Result<Option<PathBuf>> {
   Ok(None)
 }
 
+// Verification hooks: public wrappers for the two private text extractors.
+#[cfg(ellbur_totalmapper_verif)]
+pub fn verif_extract_keyboards(text: &str) -> Vec<(String, String)> {
+  extract_keyboards_from_proc_bus_input_devices(text, false).into_iter().map(|d| (d.sysfs_path, d.name)).collect()
+}
+#[cfg(ellbur_totalmapper_verif)]
+pub fn verif_extract_input_devices(text: &str) -> Vec<(String, String, bool)> {
+  extract_input_devices_from_proc_bus_input_devices(text, false).into_iter().map(|d| (d.sysfs_path, d.name, d.is_keyboard)).collect()
+}
+
 #[cfg(test)]
 mod tests {
   use crate::example_hardware;
